@@ -74,6 +74,7 @@ def check(ctx: Ctx):
     ctx.rule("R-FIFO.prio", "re-injection priority is a constant < MSG_ALGO so held messages precede newer ones")
     ctx.rule("R-FIFO.flags", "the running / paused flag is switched before the drain starts, drains only on resume")
     ctx.rule("R-FIFO.owner", "only MessagePassingComputation touches the hold-back buffers")
+    ctx.rule("R-FIFO.keep", "a held message leaves its buffer only through a drain loop that re-injects it (no clear / re-creation / stray pop outside a drain)")
     ctx.rule("R-FIFO.dispatch", "a message is dispatched to a handler only when running and not paused; "
                                 "a message is sent only when not paused")
 
@@ -232,6 +233,27 @@ def check(ctx: Ctx):
     hook = [c for c in walk_no_nested(pause.node) if isinstance(c, ast.Call) and is_self_attr(c.func, "on_pause")]
     ctx.check(bool(hook) and all(norm(c.args[0]) == p_param for c in hook if c.args), "R-FIFO.flags", "pause: on_pause(state)",
               pause, hook[0] if hook else pause.node, "on_pause must be called with the requested state")
+
+    # held messages leave a buffer only through a drain that re-injects them ----------------------------------
+    n_keep = 0
+    for mname, mf in cls_info.methods.items():
+        if mname == "__init__":
+            continue
+        for buf in BUFS:
+            drains = _drain_loops(mf.node, buf)
+            for k, n in buffer_uses(mf.node, buf):
+                if k in ("clear", "assign"):
+                    okd = any(isinstance(l, ast.For) and getattr(n, "lineno", 0) > l.lineno and not _inside(l, n) and _same_block_after(mf.node, l, n) for l in drains)
+                elif k in ("pop", "popleft", "remove", "delitem"):
+                    okd = any(isinstance(l, ast.While) and _inside(l, n) for l in drains)
+                else:
+                    continue
+                n_keep += 1
+                ctx.check(okd, "R-FIFO.keep", f"{mname}: {buf}.{k}", mf, n,
+                          f"`{norm(n)[:70]}` discards held messages that were not re-injected: the buffers also keep what arrived before start(), so emptying or re-creating "
+                          "them anywhere but in a drain loses those messages")
+    if n_keep < 3:
+        raise AnalysisError(f"R-FIFO.keep: only {n_keep} removal sites seen on the hold-back buffers (expected >= 3)")
 
     # who may touch -----------------------------------------------------------
     n_out = 0
@@ -396,6 +418,16 @@ def _check_drain(ctx, repo, f, ff, loop, buf, roles, msg_algo):
             ctx.check(okr, "R-FIFO.roles", inst, f, c, "re-post must pass the stored slots in their original positions")
 
 
+def _same_block_after(func_node, loop, node):
+    """node's statement follows `loop` in the very block that holds `loop` (so it runs exactly when the loop has run)"""
+    for o in ast.walk(func_node):
+        for fld in ("body", "orelse", "finalbody"):
+            b = getattr(o, fld, None)
+            if isinstance(b, list) and loop in b:
+                return any(any(x is node for x in ast.walk(st)) for st in b[b.index(loop) + 1:])
+    return False
+
+
 def _inside(outer, node):
     return any(n is node for n in ast.walk(outer))
 
@@ -451,6 +483,8 @@ def _stmt_at(m, node):
 
 _F = "pydcop/infrastructure/computations.py"
 VARIANTS = [
+    ("pause_recreates_buffers", _F, "            self._is_paused = is_paused\n            self.on_pause(is_paused)\n", "            self._is_paused = is_paused\n            if is_paused:\n                self._paused_messages_post = []\n                self._paused_messages_recv = []\n            self.on_pause(is_paused)\n", "break", "R-FIFO.keep"),
+    ("stop_clears_received", _F, "        self._running = False\n        self.on_stop()", "        self._running = False\n        self._paused_messages_recv.clear()\n        self.on_stop()", "break", "R-FIFO.keep"),
     ("class_level_post_buffer", "pydcop/infrastructure/computations.py", ["        self._paused_messages_post = []  # type: List[Tuple[str, Any, int, Any]]\n", "    def __init__(self, name: str, *args, **kwargs):\n        super().__init__(*args, **kwargs)\n        self._name = name\n"],
      ["", "    _paused_messages_post = []\n\n    def __init__(self, name: str, *args, **kwargs):\n        super().__init__(*args, **kwargs)\n        self._name = name\n"], "break", "R-FIFO.owner"),
     ("messaging_flattens_priorities", "pydcop/infrastructure/communication.py", "        msg_type = MSG_ALGO if msg_type is None else msg_type\n", "        msg_type = MSG_ALGO if msg_type is None else msg_type\n        if msg_type > MSG_VALUE:\n            msg_type = MSG_ALGO\n", "break", "R-FIFO.prio"),
